@@ -36,6 +36,9 @@ def schemas():
     out.append({"incs": [], "subs": [("sub", {"incs": [("inc", 0, "")], "subs": []})]})
     out.append({"incs": [("inc", 0, "")], "subs": [("sub", {"incs": [("inc", 1, "dir2")], "subs": [("deep", {"incs": [("inc", 2, "")], "subs": []})]})]})
     out.append({"incs": [("inc", 0, None)], "subs": [("sub", {"incs": [], "subs": []}), ("other", {"incs": [("inc", 1, "")], "subs": []})]})
+    # include-free sub-schemas declared before the ones that include, at two depths
+    out.append({"incs": [("inc", 0, "")], "subs": [("plain", {"incs": [], "subs": [("leaf", {"incs": [], "subs": []})]}),
+                                                   ("sub", {"incs": [], "subs": [("deep", {"incs": [("inc", 1, "dir2")], "subs": []})]})]})
     return out
 
 
@@ -76,7 +79,9 @@ def generate(rng, tier):
             cases.append({"spec": nested, "files": files, "doc": doc, "kind": "nested-via-include", "fmt": fmt})
     for i in range(n):
         spec = specs[i % len(specs)] if i < 5 * 20 else rng.choice(specs)
-        kind = rng.choice(["ok", "ok", "ok", "ok", "missing", "invalid", "nonstr", "abs"])
+        kind = rng.choice(["ok", "ok", "ok", "ok", "missing", "invalid", "nonstr", "abs", "empty"])
+        if i % 2:
+            spec = dict(spec, order="subs-first")        # the declaration order of include fields and sub-schemas is free
         # names as the document writes them: relative to the field's startdir
         good = ["f1.json", "f2.json", "g1.json", "g2.json", None]
         names = list(good)
@@ -86,6 +91,8 @@ def generate(rng, tier):
             names.append(5)
         if kind == "abs":
             names.append("ABS:f1.json")
+        if kind == "empty":
+            names += ["", ""]
         files = {}
         for fn in FILES:
             # what an included file says for the scope that includes it: any scope shape may include any file,
@@ -232,11 +239,20 @@ def gcase(c):
 def _build(spec, root):
     from cincoconfig import Schema, IncludeField
     s = Schema(dynamic=True)
-    # declare fields in a fixed order: include fields first, then sub-schemas
-    for (k, fid, sd) in spec["incs"]:
-        s._add_field(k, IncludeField(startdir=None if sd is None else os.path.join(root, sd)))
-    for (k, sub) in spec["subs"]:
-        s._add_field(k, _build(sub, root))
+    # include fields first, then sub-schemas -- or the other way round (spec["order"])
+    def incs():
+        for (k, fid, sd) in spec["incs"]:
+            s._add_field(k, IncludeField(startdir=None if sd is None else os.path.join(root, sd)))
+
+    def subs():
+        for (k, sub) in spec["subs"]:
+            s._add_field(k, _build(dict(sub, order=spec.get("order")), root))
+    if spec.get("order") == "subs-first":
+        subs()
+        incs()
+    else:
+        incs()
+        subs()
     return s
 
 
@@ -258,6 +274,17 @@ def _absolutise(tree, root):
     return tree
 
 
+def _marks(cfg):
+    """values and user-defined marks at every depth: what a failed load must leave alone"""
+    from cincoconfig import asdict, Config
+    out = {"": (sorted(cfg._default_value_keys), sorted(cfg._data))}
+    for k, v in cfg._data.items():
+        if isinstance(v, Config):
+            for p, m in _marks(v)[1].items():
+                out[k + "." + p if p else k] = m
+    return (asdict(cfg), out)
+
+
 def impl(c):
     from cincoconfig import asdict, ValidationError
     root = _setup(c)
@@ -265,7 +292,7 @@ def impl(c):
         schema = _build(c["spec"], root)
         cfg = schema()
         doc = _absolutise(c["doc"], root)
-        before = asdict(cfg)
+        before = _marks(cfg)
         cwd = os.getcwd()
         os.chdir(os.path.join(root, "cwd"))
         try:
@@ -277,13 +304,13 @@ def impl(c):
             obs = ("ok", sortd(_prune(c["spec"], _strip(c["spec"], d))))
         except ValidationError as e:
             obs = ("err", ("validation", e.ref_path))
-            c["_unchanged"] = asdict(cfg) == before
+            c["_unchanged"] = _marks(cfg) == before
         except OSError:
             obs = ("err", "os")
-            c["_unchanged"] = asdict(cfg) == before
+            c["_unchanged"] = _marks(cfg) == before
         except Exception as e:  # noqa
             obs = ("err", "other")
-            c["_unchanged"] = asdict(cfg) == before
+            c["_unchanged"] = _marks(cfg) == before
         finally:
             os.chdir(cwd)
     finally:
